@@ -34,7 +34,7 @@ PLAN = {
         {"match": r"add_allowed_address", "src": "witness_plain_ip.rs", "crate": "metrics-exporter-prometheus",
          "file": "metrics-exporter-prometheus/src/exporter/builder.rs"},
         # the serving clauses on the real listener over loopback (peers from chosen 127.x source addresses)
-        {"match": r"(fn check_tcp_allowed|fn handle_http_request|fn new_http_listener)", "name": "impl HttpListeningExporter :: fn check_tcp_allowed", "src": "witness_serve.rs",
+        {"match": r"(fn check_tcp_allowed|fn handle_http_request|fn new_http_listener)", "name": "impl HttpListeningExporter (serving)", "src": "witness_serve.rs",
          "crate": "metrics-exporter-prometheus", "file": "metrics-exporter-prometheus/src/exporter/http_listener.rs"},
     ],
 }
